@@ -450,7 +450,9 @@ func (sc SimpleColumn) ReadInto(r io.Reader, store FactStore) error {
 	}
 	for i, p := range preds {
 		if p.Arity == 0 {
-			store.Add(ast.Atom{p, nil})
+			if predNumFacts[i] > 0 {
+				store.Add(ast.Atom{p, nil})
+			}
 			continue
 		}
 		numFacts := predNumFacts[i]
